@@ -52,7 +52,11 @@ var solvers = []solverSpec{
 func itoa(i int) string { return strconv.Itoa(i) }
 
 func runSolver(sp solverSpec, file string, tmo time.Duration) (Verdict, string, float64) {
-	ctx, cancel := context.WithTimeout(context.Background(), tmo+2*time.Second)
+	return runSolverCtx(context.Background(), sp, file, tmo)
+}
+
+func runSolverCtx(parent context.Context, sp solverSpec, file string, tmo time.Duration) (Verdict, string, float64) {
+	ctx, cancel := context.WithTimeout(parent, tmo+2*time.Second)
 	defer cancel()
 	argv := sp.argv(file, int(tmo/time.Millisecond))
 	cmd := exec.CommandContext(ctx, argv[0], argv[1:]...)
@@ -108,34 +112,44 @@ func solve(text string, workdir string, name string, tmo time.Duration, thorough
 	_ = os.WriteFile(file, []byte(text), 0o644)
 	res := SolveResult{All: map[string]Verdict{}}
 	if !thorough {
-		// first: z3-new alone with the full budget shortcut for the common case
-		v, out, secs := runSolver(solvers[0], file, tmo)
-		res.All[solvers[0].name] = v
-		if v == Unsat || v == Sat {
-			res.Verdict, res.Solver, res.Secs, res.Output = v, solvers[0].name, secs, out
-		} else {
-			// race the other two
-			type r struct {
-				v    Verdict
-				out  string
-				secs float64
-				n    string
+		// race z3-new and cvc5; the first definitive answer wins and the
+		// other process is killed; old z3 is asked only if both give up
+		type r struct {
+			v    Verdict
+			out  string
+			secs float64
+			n    string
+		}
+		ctx, cancel := context.WithCancel(context.Background())
+		ch := make(chan r, 2)
+		for _, sp := range solvers[:2] {
+			sp := sp
+			go func() {
+				v, o, s := runSolverCtx(ctx, sp, file, tmo)
+				ch <- r{v, o, s, sp.name}
+			}()
+		}
+		res.Verdict = Unknown
+		for i := 0; i < 2; i++ {
+			x := <-ch
+			res.All[x.n] = x.v
+			if x.v == Unsat || x.v == Sat {
+				res.Verdict, res.Solver, res.Secs, res.Output = x.v, x.n, x.secs, x.out
+				break
 			}
-			ch := make(chan r, 2)
-			for _, sp := range solvers[1:] {
-				sp := sp
-				go func() {
-					v, o, s := runSolver(sp, file, tmo)
-					ch <- r{v, o, s, sp.name}
-				}()
-			}
-			res.Verdict, res.Solver, res.Secs, res.Output = v, solvers[0].name, secs, out
-			for i := 0; i < 2; i++ {
-				x := <-ch
-				res.All[x.n] = x.v
-				if (x.v == Unsat || x.v == Sat) && res.Verdict != Unsat && res.Verdict != Sat {
-					res.Verdict, res.Solver, res.Secs, res.Output = x.v, x.n, x.secs, x.out
+			if res.Solver == "" || x.v != SErr {
+				res.Solver, res.Secs, res.Output = x.n, x.secs, x.out
+				if res.Verdict != Timeout {
+					res.Verdict = x.v
 				}
+			}
+		}
+		cancel()
+		if res.Verdict != Unsat && res.Verdict != Sat {
+			v, out, secs := runSolver(solvers[2], file, tmo)
+			res.All[solvers[2].name] = v
+			if v == Unsat || v == Sat {
+				res.Verdict, res.Solver, res.Secs, res.Output = v, solvers[2].name, secs, out
 			}
 		}
 	} else {
@@ -186,4 +200,12 @@ func sanitizeFile(s string) string {
 		s = s[:150]
 	}
 	return s
+}
+
+func runSolverText(sp solverSpec, text, workdir, name string, tmo time.Duration) (Verdict, string, float64) {
+	file := filepath.Join(workdir, sanitizeFile(name)+".smt2")
+	_ = os.WriteFile(file, []byte(text), 0o644)
+	v, out, secs := runSolver(sp, file, tmo)
+	_ = os.Remove(file)
+	return v, out, secs
 }
